@@ -78,8 +78,9 @@ MANIFEST = dict(
     design_ref="§6 C19",
     note=("Trusted: Lean kernel; the instrumentation stubs; cairosvg is absent so PNG conversion is stubbed. Second layer (CacheSM): raising "
           "converters / handlers, the in-memory render state and the entry points as_<fmt>, __html__, __repr__, _repr_mimebundle_, save are "
-          "modelled and run as call sequences with faults at particular points; two known findings of _repr_mimebundle_ (renders internally "
-          "regardless of the fallback flag; does not use a cached ancestor format)."),
+          "modelled and run as call sequences with faults at particular points; two findings of _repr_mimebundle_ (rendered internally "
+          "regardless of the fallback flag; did not use a cached ancestor format) are repaired in /repo and the repaired code is what is modelled "
+          "(mimebundle_respects_fallback proved in general)."),
     technique="Lean 4 proof (induction over converter chains, generated table checked by decide +kernel) + exhaustive trace-level differential correspondence",
 )
 
@@ -1074,16 +1075,23 @@ def judge_seq(out: Outcome, D, table, w: "World", d, hist: dict, k: int, call: d
     res = obs["result"]
     fresh_ran = ["fresh"] in obs["trace"]
     # (a) whatever comes out is a COMPLETE conversion of this diagram's own cache file, or of an internal rendering / error image
-    for v in values_of(res.get("ok")) if "ok" in res else []:
+    ok_ = res.get("ok") if "ok" in res else None
+    if isinstance(ok_, list) and ok_ and ok_[0] == "bundle":
+        pairs = [(m_, v_) for m_, v_ in ok_[1]]
+    else:
+        pairs = [(None, v_) for v_ in values_of(ok_)]
+    for mime_, v in pairs:
         leaf = leaf_of(v)
         if isinstance(leaf, list) and leaf and leaf[0] == "file":
             if not (str(leaf[1]).startswith(uuid) and str(leaf[1])[len(uuid):] in exts and leaf[1] in present):
                 fail("reads-foreign-file", f"the value derives from {leaf[1]!r}, not a cached file of diagram {uuid}")
                 continue
             src_cv = exts[str(leaf[1])[len(uuid):]]
-            # a bundle item is the format of its own MIME type; the text/plain fallback is repr(): termgraphics
+            # a bundle item is the format registered for its MIME type (dict-assignment semantics: the last entry
+            # point with that mimetype); the text/plain fallback is repr(): termgraphics
             fmts_ = [seq_format_of(call)] if call["entry"] != "mimebundle" else (
-                ["termgraphics"] if res["ok"][0] == "bundle_text" else [name_of(table, src_cv)])
+                ["termgraphics"] if res["ok"][0] == "bundle_text" else
+                [[n_ for n_, ch_ in table.items() if getattr(ch_[0], "mimetype", None) == mime_][-1:] or [None]][0])
             f = fmts_[0]
             if f in table and src_cv in table[f]:
                 want = full_term(table[f][: table[f].index(src_cv)], ["from_cache", name_id(src_cv), leaf], False, D)
@@ -1169,22 +1177,37 @@ def judge_bundle(out: Outcome, D, table, w: "World", d, hist: dict, k: int, call
             selected[m] = ch
     res = obs["result"]["ok"]
     got = dict((m, v) for m, v in res[1]) if res[0] == "bundle" else {}
-    own = {m: ch for m, ch in selected.items() if getattr(ch[0], "filename_extension", None) and (uuid + ch[0].filename_extension) in present}
-    for m, ch in own.items():
-        want = ["from_cache", name_id(ch[0]), ["file", uuid + ch[0].filename_extension]]
+    # per selected MIME type: the nearest cached ancestor of that format's WHOLE depends chain (brute force)
+    served = {}
+    for m, ch in selected.items():
+        for idx, cv in enumerate(ch):
+            e_ = getattr(cv, "filename_extension", None)
+            if e_ and hasattr(cv, "from_cache") and (uuid + e_) in present:
+                served[m] = full_term(ch[:idx], ["from_cache", name_id(cv), ["file", uuid + e_]], False, D)
+                break
+    for m, want in served.items():
         if got.get(m) != want:
-            fail("hit-not-served", f"{uuid + ch[0].filename_extension} is cached but bundle[{m}] = {got.get(m)}")
-    if own or not selected:
-        if ["fresh"] in obs["trace"]:
-            fail("fresh-on-hit", "a selected format is cached but the internal renderer ran")
+            own_ext = getattr(selected[m][0], "filename_extension", None)
+            cls = "hit-not-served" if own_ext and (uuid + own_ext) in present else "ancestor-not-used"
+            fail(cls, f"bundle[{m}] = {got.get(m)}, expected the conversion {want} of the nearest cached file")
+    fresh_ran = ["fresh"] in obs["trace"]
+    if served or not selected:
+        if fresh_ran:
+            fail("fresh-on-hit" if any(getattr(selected[m][0], "filename_extension", None) and
+                                       (uuid + selected[m][0].filename_extension) in present for m in served)
+                 else "ancestor-not-used", "a selected format can be served from the cache but the internal renderer ran")
+        for m in got:
+            if m not in served:
+                fail("item-not-from-cache", f"bundle[{m}] = {got[m]} although other selected formats were served from the cache")
         return
-    ancestor = [m for m, ch in selected.items() for cv in ch[1:]
-                if getattr(cv, "filename_extension", None) and hasattr(cv, "from_cache") and (uuid + cv.filename_extension) in present]
-    if ["fresh"] in obs["trace"]:
-        if not hist["allow"]:
+    if not hist["allow"]:
+        if fresh_ran or obs["created"]:
             fail("fresh-without-fallback", "no selected format is cached, fallback off, but the diagram was rendered internally")
-        elif ancestor:
-            fail("ancestor-not-used", f"a cached ancestor format of {ancestor} exists but the diagram was rendered internally")
+        for m, v in got.items():
+            if leaf_of(v) != ["error_image", "render", "NotInCache"]:
+                fail("miss-no-error-image", f"nothing cached, fallback off: bundle[{m}] = {v}, the 'not in cache' error image is expected")
+        if res[0] not in ("bundle", "bundle_text"):
+            fail("miss-no-error-image", f"nothing cached, fallback off: result {res}")
 
 
 def gen_histories(ctx: Ctx, fmts: list[str], uuid: str, others: list[str], way: str, n_random: int):
